@@ -94,6 +94,34 @@ def combo_cases(lengths):
             yield ('upleft', b, '^', n, ['^'] + gen.diag('\\', n, '\\', 1) + [' ' * (n + 1) + b], (n + 1, n + 1))
 
 
+def pair_cases(lengths):
+    """two parallel arrows in neighbouring columns / rows: each keeps its own arrowhead"""
+    for n in lengths:
+        for g in 'vV':
+            yield ('down', g, n, ['||'] * n + [g + g])
+            yield ('down', g, n, ['| |'] * n + [g + ' ' + g])
+            yield ('downright', g, n, [' ' * i + '\\\\' for i in range(n)] + [' ' * n + g + g])
+        yield ('up', '^', n, ['^^'] + ['||'] * n)
+        for g in '>':
+            yield ('right', g, n, ['-' * n + g, '-' * n + g])
+        yield ('left', '<', n, ['<' + '-' * n, '<' + '-' * n])
+        yield ('down', 'v', n, ['|'] * n + ['vo'])
+        yield ('down', 'v', n, ['|'] * n + ['vX'])
+
+
+def check_pair(sc, dirn, want):
+    flat = flat_of(sc)
+    polys = [e for e in flat if e[0] == 'polygon']
+    lines = [e for e in flat if e[0] == 'line']
+    if len(polys) != want:
+        return 'expected %d arrowhead polygons, got %d: %s' % (want, len(polys), [show_el(e) for e in flat[:6]])
+    for p in polys:
+        msgs = [arrow_vs_line([p], l, dirn) for l in lines]
+        if not lines or all(msgs):
+            return 'an arrowhead fits none of the lines: %s' % (msgs[-1] if msgs else 'no line')
+    return None
+
+
 def flat_of(sc):
     return [e for e, _ in sc.flat()]
 
@@ -220,6 +248,8 @@ def check_case(ctx, case):
     elif k == 'bullet':
         bx, by = case['at']
         msg = check_bullet(sc, case['glyph'], F((ox + bx) * 8 + 4), F((oy + by) * 16 + 8))
+    elif k == 'pair':
+        msg = check_pair(sc, case['what'], case['want'])
     elif k == 'combo':
         bx, by = case['at']
         msg = check_combo(sc, case['bullet'], F((ox + bx) * 8 + 4), F((oy + by) * 16 + 8), case['what'])
@@ -241,6 +271,12 @@ def run_shard(ctx, shard):
             for ox, oy in offs:
                 ctx.run_case({'kind': 'arrowhead', 'what': dirn, 'glyph': g, 'n': n, 'rows': rows, 'ox': ox, 'oy': oy})
         ctx.sample({'arrow': rows})
+    elif k == 'pairs':
+        for dirn, g, n, rows in pair_cases(shard['lengths']):
+            want = 1 if rows[-1] in ('vo', 'vX') else 2
+            for ox, oy in offs:
+                ctx.run_case({'kind': 'pair', 'what': dirn, 'glyph': g, 'n': n, 'rows': rows, 'want': want, 'ox': ox, 'oy': oy})
+        ctx.sample({'pair': rows})
     elif k == 'combos':
         for dirn, b, g, n, rows, at in combo_cases(shard['lengths']):
             for ox, oy in offs:
@@ -296,12 +332,14 @@ def execute(run):
         shards += [{'kind': 'arrows', 'name': 'arrows-%d' % i, 'lengths': list(range(1 + i, 41, 4))} for i in range(4)]
         shards += [{'kind': 'bullets', 'name': 'bullets-%d' % i, 'lengths': list(range(1 + i, 25, 4))} for i in range(4)]
         shards += [{'kind': 'combos', 'name': 'combos-%d' % i, 'lengths': list(range(1 + i, 13, 4))} for i in range(4)]
+        shards += [{'kind': 'pairs', 'name': 'pairs-%d' % i, 'lengths': list(range(1 + i, 13, 4))} for i in range(4)]
         for st in range(len(STYLES)):
             shards += [{'kind': 'outlines', 'name': 'outlines-%d-%d' % (st, i), 'style': st, 'widths': [1, 2, 3, 4, 5, 8, 13, 21, 29, 30][i::2], 'heights': [1, 2, 3, 4, 7, 11, 15]} for i in range(2)]
     else:
         shards += [{'kind': 'arrows', 'name': 'arrows-%d' % i, 'lengths': list(range(1 + i, 41, 8))} for i in range(8)]
         shards += [{'kind': 'bullets', 'name': 'bullets-%d' % i, 'lengths': list(range(1 + i, 41, 8))} for i in range(8)]
         shards += [{'kind': 'combos', 'name': 'combos-%d' % i, 'lengths': list(range(1 + i, 41, 8))} for i in range(8)]
+        shards += [{'kind': 'pairs', 'name': 'pairs-%d' % i, 'lengths': list(range(1 + i, 41, 8))} for i in range(8)]
         for st in range(len(STYLES)):
             shards += [{'kind': 'outlines', 'name': 'outlines-%d-%d' % (st, i), 'style': st, 'widths': list(range(1 + i, 31, 6)), 'heights': list(range(1, 16))} for i in range(6)]
         run.extra_cov['exhaustive_scopes'] = ['arrow glyphs x 8 directions x lengths 1..40 x 2 offsets', 'bullets x 10 placements x lengths 1..40 x 2 offsets',
